@@ -278,3 +278,19 @@ prop("C18",
          {"name": "main", "build": "fast", "bin": "c18"},
          {"name": "nostd", "build": "nostd", "bin": "c18"},
      ])
+
+prop("C19",
+     technique="runtime monitoring: value oracle for the rectifiers (every value of the 8/16-bit formats), per-step recurrence monitor for the envelope follower from the observed previous output and a second identical detector; instrumented source for the adaptor; std and no_std builds",
+     level_text=("Rectifiers: every value of i8/u8/i16/u16 and structured + 1e5 (quick) / 3e6 (thorough) random values of the 24/32/48/64-bit and float formats, in frames of width "
+                 "1, 2 and 5: full-wave == |signed amplitude| (signed minimum excluded as stated), half-waves == max/min with equilibrium (unsigned formats re-centred). "
+                 "Envelope: formats {f32,f64,i16,u8,I24,i32} x channels {1,2} x detectors {peak full/+half/-half, RMS window 1/4/64} x six input patterns x 4 / 24 "
+                 "attack/release schedules (times from {0, 0.01, 0.5, 1, 3, 10, 64, 1000}, attack != release, mid-stream changes, through Detector and the "
+                 "detect_envelope adaptor): every output == d + g (l - d) within a rounding tolerance, between l and d, == d when the time is 0, monotone on constant "
+                 "input. Exploration: histories and times are unbounded."),
+     level_note="trusted: exp() in f64 as the reference gain (the crate uses an f32 powf: 2^-21 relative slack), tolerance 8u max(|l|,|d|) + 2 LSB + underflow term; the detected value comes from a second instance of the same detector (rectifiers/RMS are checked on their own by this check and C11)",
+     rule=("cases are sample values (rectifiers) and (format, channels, detector, pattern, schedule) runs (envelope); non-trivial = all (the test-suite has no envelope "
+           "test); distinct by hash; evaluations = values / per-channel envelope steps checked"),
+     stages=[
+         {"name": "main", "build": "fast", "bin": "c19"},
+         {"name": "nostd", "build": "nostd", "bin": "c19"},
+     ])
